@@ -321,3 +321,30 @@ def c16_cr_translation(case, rr):
         if tr(d["a_text"]) != tr(d["b_text"]):
             return False
     return True
+
+
+@matcher
+def roundtrip_ws_only(case, rr, doc_regex=None):
+    """regenerated text and source are equal once every space and TAB is removed"""
+    import re
+
+    obs = rr.get("observed") or {}
+    doc, regen = obs.get("doc"), obs.get("regen")
+    if doc is None or regen is None:
+        return False
+    if doc_regex and not re.search(doc_regex, doc, re.S):
+        return False
+    strip = lambda s: s.replace(" ", "").replace("\t", "")
+    return strip(doc) == strip(regen)
+
+
+@matcher
+def roundtrip_any(case, rr, doc_regex=None):
+    """any round-trip failure (difference or regenerator exception) on a document of this shape"""
+    import re
+
+    obs = rr.get("observed") or {}
+    doc = obs.get("doc")
+    if doc is None or not (obs.get("regen") is not None or obs.get("regen_exception")):
+        return False
+    return bool(re.search(doc_regex, doc, re.S))
